@@ -152,6 +152,8 @@ def kind_match_decides(ck, R, body, what, allowed_first=()):
 
 
 def run(ck, facts, tier):
+    from props.c10 import solver_per_revision
+    solver_per_revision(ck, facts, "C08.SOLVER-PER-REVISION")
     R = "C08.SIZED-TABLE"
     ck.rule(R, "K1 vs spec: add_sized_program_clauses maps every TyKind to the outcome class the language rules dictate")
     sz = need_body(ck, facts, R, BT + "sized::add_sized_program_clauses")
